@@ -101,11 +101,14 @@ def _cases(tier, seed):
                 yield dict(kind="filter", alpha="scalar", step=key, w=w, shape=shape, ds=2)
                 yield dict(kind="filter", alpha="scalar", step=key, w=w, shape=shape, dscale=1e-9)
                 yield dict(kind="filter", alpha="scalar", step=key, w=w, shape=shape, ddtype="int")
+                # a third (vertical) coordinate: filter hands back the coordinates it was given, all of them (round 9, seed C06-17)
+                yield dict(kind="filter", alpha="scalar", step=key, w=w, shape=shape, xc=True)
     for key in ("VTK", "VTS"):
         for w in (False, True):
             for shape in ("1d", "2d"):
                 yield dict(kind="filter", alpha="vector", step=key, w=w, shape=shape)
                 yield dict(kind="filter", alpha="vector", step=key, w=w, shape=shape, ddtype="int")
+                yield dict(kind="filter", alpha="vector", step=key, w=w, shape=shape, xc=True)
                 yield dict(kind="vector_parts", step=key, w=w, shape=shape)
         yield dict(kind="filter", alpha="vector", step=key, w=True, shape="1d", wconst=True)
         yield dict(kind="vector_parts", step=key, w=True, shape="1d", wconst=True)
@@ -326,6 +329,8 @@ def run(case, rec):
             d = (np.round(d[0]).astype(np.int64), np.round(d[1]).astype(np.int32))
         rs = (lambda a: a.reshape(2, -1)) if case["shape"] == "2d" else (lambda a: a)
         coords = (rs(e), rs(n))
+        if case.get("xc"):
+            coords = coords + (rs(np.arange(e.size, dtype=float) * 3.0 + 100.0),)
         data = rs(d[0]) if alpha == "scalar" else (rs(d[0]), rs(d[1]))
         wts = None
         if case["w"]:
@@ -337,6 +342,7 @@ def run(case, rec):
                 return rec.check(False, "filter raised %r" % (out,))
             rec.check(isinstance(out, tuple) and len(out) == 3, "filter must return (coordinates, residuals, weights)")
             rec.check(out[0] is coords, "filter must return the coordinate object it was given")
+            rec.check(len(out[0]) == len(coords) and all(a_ is b_ for a_, b_ in zip(out[0], coords)), "filter returned %d coordinate arrays for the %d it was given" % (len(out[0]), len(coords)))
             rec.check(out[2] is wts, "filter must return the weights object it was given")
             fresh = _mk(alpha, case["step"], case["w"])
             fresh.fit(coords, data, wts)
